@@ -40,3 +40,23 @@ Definition sp_info_toggled (f g : list N) : bool :=
   | x :: fr, y :: gr => (N.lxor x y =? 1) && list_eqb N.eqb fr gr
   | _, _ => false
   end.
+
+(** * one-hop paths: the second hop field must authenticate at the second AS.
+      Independent reader (literal offsets of the SCION header specification): info field at 0,
+      hop field 1 at 8, hop field 2 at 20; the hop MAC is the first six bytes of the MAC over
+      0(2) beta(2) timestamp(4) 0(1) ExpTime(1) ConsIngress(2) ConsEgress(2) 0(2), where beta is
+      the SegID after hop 1 (SegID xor first two MAC bytes of hop 1 unless already advanced),
+      and ExpTime / ConsIngress / ConsEgress are those STORED in hop field 2. *)
+Definition sp_onehop_second_hop_ok (mac : list N -> list N -> list N) (key : list N) (advanced : bool)
+           (ingress : N) (b : list N) : bool :=
+  let segid := be_val 0 (firstn 2 (skipn 2 b)) in
+  let ts4 := firstn 4 (skipn 4 b) in
+  let sigma1 := be_val 0 (firstn 2 (skipn 14 b)) in
+  let beta := if advanced then segid else N.lxor segid sigma1 in
+  let exp1 := nth 9 b 0 in
+  let exp2 := nth 21 b 0 in
+  let ci2 := firstn 2 (skipn 22 b) in
+  let ce2 := firstn 2 (skipn 24 b) in
+  let block := [0; 0; beta / 256; beta mod 256] ++ ts4 ++ [0; exp2] ++ ci2 ++ ce2 ++ [0; 0] in
+  list_eqb N.eqb (firstn 6 (skipn 26 b)) (firstn 6 (mac key block))
+  && (be_val 0 ci2 =? ingress) && (be_val 0 ce2 =? 0) && (exp2 =? exp1) && (length b =? 32)%nat.
